@@ -593,6 +593,14 @@ class Typer:
                 t = self.attr_type(bt, e.args[1].value)
                 if t:
                     return t
+            names = self._ranged_constants(f, e.args[1])
+            if names:
+                # getattr(proto, field) with `field` ranging over a literal tuple: the union of the named fields
+                out = EMPTY
+                for nm in names:
+                    out |= self.attr_type(bt, nm)
+                if out:
+                    return out
             if any(a[0].startswith("proto") for a in bt):
                 return T(("proto", "?"))
             return EMPTY
@@ -660,6 +668,19 @@ class Typer:
                         continue
                 out.add(("ext", a[1] + "()"))
         return frozenset(out)
+
+    @staticmethod
+    def _ranged_constants(f: FuncInfo, e) -> list[str]:
+        """String constants a name stands for when it is the target of an enclosing `for name in (<constants>)`."""
+        if not isinstance(e, ast.Name):
+            return []
+        p_ = getattr(e, "_parent", None)
+        while p_ is not None and p_ is not f.node:
+            if isinstance(p_, (ast.For, ast.comprehension)) and isinstance(p_.target, ast.Name) and p_.target.id == e.id \
+                    and isinstance(p_.iter, (ast.Tuple, ast.List, ast.Set)):
+                return [x.value for x in p_.iter.elts if isinstance(x, ast.Constant) and isinstance(x.value, str)]
+            p_ = getattr(p_, "_parent", None)
+        return []
 
     def inferred_return(self, g: FuncInfo) -> frozenset:
         """Type of a package function that says nothing useful about its result
